@@ -51,9 +51,9 @@ class Native:
         if hasattr(self.side, "native_env"):
             self.ns.update(self.side.native_env(self))
         if getattr(self.side, "SPECS", ""):
-            exec(self.side.SPECS, self.ns)
+            exec(self._spec_code(self.side.SPECS), self.ns)
         for extra in getattr(self.side, "NATIVE_SPEC_SOURCES", []):
-            exec(getattr(self.side, extra), self.ns)
+            exec(self._spec_code(getattr(self.side, extra)), self.ns)
         if hasattr(self.side, "native_env"):
             self.ns.update(self.side.native_env(self))   # native definitions of @opaque / builtin spec symbols win
         self.files = getattr(self.side, "FILES", None) or {"": self.side.MODULE}
@@ -67,6 +67,17 @@ class Native:
                     self.ns[name] = self.real(name)
                 except Exception:  # noqa: BLE001
                     pass
+
+    @staticmethod
+    def _spec_code(src: str) -> Any:
+        """spec functions are executable Python; `implies(a, b)` inside them is logical implication (b is not evaluated when a is false)"""
+        class T(ast.NodeTransformer):
+            def visit_Call(s, n: ast.Call) -> Any:  # noqa: N805
+                s.generic_visit(n)
+                if isinstance(n.func, ast.Name) and n.func.id == "implies" and len(n.args) == 2:
+                    return ast.copy_location(ast.BoolOp(op=ast.Or(), values=[ast.UnaryOp(op=ast.Not(), operand=n.args[0]), n.args[1]]), n)
+                return n
+        return compile(ast.fix_missing_locations(T().visit(ast.parse(src))), "<specs>", "exec")
 
     def _quant(self, agg: Any, fn: Any, tys: tuple[str, ...]) -> bool:
         import itertools
